@@ -134,6 +134,19 @@ def run_probe(p):
             if [ser_expr(e) for e in ex] != before:
                 mut = "lifted expressions changed by expr_simp"
             return r, mut
+        if k == "hold":
+            # an instruction object that the caller keeps while it makes other calls must not change under its hands
+            i = x86mnemo.dis(bytes.fromhex(p["b"]))
+            if i is None:
+                return None, mut
+            fmts = ("intel_syntax noprefix", "att_syntax binutils")
+            view = lambda: [snap_instr(i)] + [" ".join(i.__str__(asm_format=f).split()) for f in fmts]
+            before = view()
+            for q in p["then"]:
+                run_probe(q)
+            if view() != before:
+                mut = "an instruction object returned earlier changed during later calls"
+            return before, mut
         if k == "render":
             i = x86mnemo.dis(bytes.fromhex(p["b"]))
             if i is None:
